@@ -19,6 +19,7 @@ package types
 import (
 	"encoding/json"
 	"fmt"
+	"sort"
 )
 
 type SSHKey struct {
@@ -69,6 +70,8 @@ func (s *SSHConfig) DecodeMapstructure(value interface{}) error {
 		result[i] = key
 		i++
 	}
+	// map iteration order is random: keep the decoded keys in a stable order
+	sort.Slice(result, func(i, j int) bool { return result[i].ID < result[j].ID })
 	*s = result
 	return nil
 }
